@@ -254,4 +254,21 @@ CHECKS = {
                              "thorough": ["mode:error", "mode:wounds", "mode:aggregate", "bad-block:not-first", "bad-block:beyond-signed-count", "write:straddles-block-boundary"]},
         "stages": [rapid("validatingpool", "TestProp", 16000, 400000, qs=8, ts=16, qt=600, tt=5400)],
     },
+    "C13": {
+        "title": "Messages survive any compression setting; reader checkpoints resume exactly",
+        "level": "exploration",
+        "technique": "rapid property-based testing: write/read round trip of generated message sequences x compressors, and resume-from-every-popped-checkpoint differential",
+        "level_text": ("Generated sequences of 0..60 messages of mixed types (SyncOp data/range/end, SyncHeader, bsdiff Control, BlockHash) with body "
+                       "sizes 0, small, 32KiB-8..32KiB+1, powers of two +-1, >4MiB (rare), compressible or not, x {none, gzip -2..9, brotli 0..11} x "
+                       "WantSave bit patterns. Oracles: read-back proto.Equal to what was written, then io.EOF; every popped checkpoint is "
+                       "gob-encoded, decoded, handed to a brand-new reader over the same bytes, which must yield exactly messages i.. and EOF, "
+                       "where i is the index of the first message not yet returned at pop time (including i == number of messages)."),
+        "level_note": "decompressor internals (savior) are exercised only through wharf's reader.",
+        "rule": ("rapid draws (compression, message list, save pattern). evaluations = sequences, sub_evaluations = 1 + checkpoints resumed. "
+                 "Non-trivial: a sequence with a checkpoint whose source offset lags the message offset under a real compressor. Distinct: SHA-1 of the spec."),
+        "assumptions": [],
+        "required_classes": {"quick": ["checkpoint:after-last-message", "checkpoint:source-lags-message-offset", "msg:around-32KiB-buffer", "comp:gzip", "comp:brotli"],
+                             "thorough": ["checkpoint:after-last-message", "checkpoint:source-lags-message-offset", "msg:around-32KiB-buffer", "msg:>4MiB", "comp:gzip", "comp:brotli"]},
+        "stages": [rapid("wire", "TestProp", 1600, 64000, qs=16, ts=16, qt=600, tt=5400)],
+    },
 }
